@@ -228,6 +228,32 @@ def findNDoRule (p : PassT) (c : Ctx) (slot : Nat) : Except String (Ctx × Optio
         let (c, so) := adjustSlot c ret slotOut
         .ok (c, so, .finished)
 
+/-- the rule loop of `Pass::runGraphite`; returns the final context (`none` = the machine stopped with a status other than
+`finished`) and the number of iterations of the do-loop -/
+def ruleLoop (p : PassT) : Nat → Ctx → Nat → Int → Nat → Except String (Option Ctx × Nat)
+  | 0, _, _, _, _ => .error "rule loop fuel exhausted"
+  | f + 1, c, s, lc, it =>
+    match findNDoRule p c s with
+    | .error w => .error w
+    | .ok (c, s', st) =>
+      if st ≠ .finished then .ok (none, it + 1) else
+      match s' with
+      | none => .ok (some c, it + 1)
+      | some s1 =>
+        let hit := (some s1 = c.highwater) ∨ c.highpassed
+        let lc' := if hit then lc else lc - 1
+        if hit ∨ lc' = 0 then
+          let s2 : Option Nat := if lc' = 0 then c.highwater else some s1      -- `if (!lc) s = highwater;`
+          match s2 with
+          | some s3 => ruleLoop p f { c with highwater := (c.seg.get s3).next, highpassed := false } s3 p.maxLoop (it + 1)
+          | none => .ok (some c, it + 1)
+        else ruleLoop p f c s1 lc' (it + 1)
+
+/-- the hook's bookkeeping: worst ratio of iterations to bound seen so far -/
+def noteLoop (c : Ctx) (it bound : Nat) : Ctx :=
+  let c := { c with vCalls := c.vCalls + 1, vExceeded := c.vExceeded || decide (it > bound) }
+  if c.vBound = 0 ∨ it * c.vBound > c.vIter * bound then { c with vIter := it, vBound := bound } else c
+
 /-- `Pass::runGraphite` (rule loop only). `none` = the machine stopped with a status other than `finished`. -/
 def runPass (p : PassT) (c : Ctx) (fuel : Nat) : Except String (Option Ctx) :=
   match c.seg.first with
@@ -235,26 +261,24 @@ def runPass (p : PassT) (c : Ctx) (fuel : Nat) : Except String (Option Ctx) :=
   | some s0 =>
     if p.rules.size = 0 then .ok (some c) else
     let c := { c with highwater := (c.seg.get s0).next, highpassed := false }
-    let rec loop (fuel : Nat) (c : Ctx) (s : Nat) (lc : Int) : Except String (Option Ctx) :=
-      match fuel with
-      | 0 => .error "rule loop fuel exhausted"
-      | f + 1 =>
-        match findNDoRule p c s with
-        | .error w => .error w
-        | .ok (c, s', st) =>
-          if st ≠ .finished then .ok none else
-          match s' with
-          | none => .ok (some c)
-          | some s1 =>
-            let hit := (some s1 = c.highwater) ∨ c.highpassed
-            let lc' := if hit then lc else lc - 1
-            if hit ∨ lc' = 0 then
-              let s2 : Option Nat := if lc' = 0 then c.highwater else some s1      -- `if (!lc) s = highwater;`
-              match s2 with
-              | some s3 => loop f { c with highwater := (c.seg.get s3).next, highpassed := false } s3 p.maxLoop
-              | none => .ok (some c)
-            else loop f c s1 lc'
-    loop fuel c s0 p.maxLoop
+    let bound := (if p.maxLoop = 0 then 1 else p.maxLoop) * (c.seg.numGlyphs.toNat + c.maxSize.toNat + 2)
+    match ruleLoop p fuel c s0 p.maxLoop 0 with
+    | .error w => .error w
+    | .ok (none, _) => .ok none
+    | .ok (some c, it) => .ok (some (noteLoop c it bound))
+
+/-- one call of `Silf::runGraphite(seg, lo, hi)` (no bidi pass): a fresh slot map and machine, `maxSize = slotCount *
+MAX_SEG_GROWTH_FACTOR`; after each pass the segment may not have outgrown that limit -/
+def runRange (passes : Array PassT) (c : Ctx) (lo hi : Nat) (fuel : Nat) : Except String (Option Ctx) :=
+  let limit : Int := c.seg.numGlyphs * 64
+  let c := { c with maxSize := limit, highwater := none, highpassed := false, status := .finished }
+  (List.range (hi - lo)).foldl (fun (acc : Except String (Option Ctx)) k =>
+    match acc with
+    | .ok (some c) =>
+      (match runPass (passes.getD (lo + k) default) c fuel with
+       | .ok (some c) => if c.seg.numGlyphs > 0 ∧ c.seg.numGlyphs > limit then .ok none else .ok (some c)
+       | o => o)
+    | o => o) (.ok (some c))
 
 structure Font where
   passes : Array PassT
@@ -264,26 +288,15 @@ structure Font where
   cmap : Nat → Nat
 
 /-- the whole pipeline for a left-to-right request: text → slots → substitution passes → `associateChars` → positioning passes -/
-def shape (font : Font) (text : List Nat) (fuel : Nat) : Except String (Option (Seg × List Assoc.CI)) :=
+def shape (font : Font) (text : List Nat) (fuel : Nat) : Except String (Option (Ctx × List Assoc.CI)) :=
   let n := text.length
-  if n = 0 then .ok (some ({}, [])) else
+  if n = 0 then .ok (some ({ seg := {}, smap := #[], size := 0, context := 0, maxSize := 0, map := 0, is := none }, [])) else
   let seg0 : Seg := { numGlyphs := n, numChars := n, slots := Array.replicate (n + 10) {}, free := List.range (n + 10),
                       bufSize := Nat.log2 n + 1 }
   let seg := text.zipIdx.foldl (fun s (ch, i) => s.appendSlot i (font.cmap ch) 64) seg0
   let ctx0 : Ctx := { seg := seg, smap := Array.replicate (MAX_SLOTS + 2) none, size := 0, context := 0, maxSize := (n * 64 : Nat),
                       dir := 0, map := 0, is := none, classes := font.classes, gattr := font.gattr }
-  -- one call of `Silf::runGraphite(seg, lo, hi)`: a fresh slot map and machine, `maxSize = slotCount * MAX_SEG_GROWTH_FACTOR`
-  let runRange (c : Ctx) (lo hi : Nat) : Except String (Option Ctx) :=
-    let limit : Int := c.seg.numGlyphs * 64
-    let c := { c with maxSize := limit, highwater := none, highpassed := false, status := .finished }
-    (List.range (hi - lo)).foldl (fun (acc : Except String (Option Ctx)) k =>
-      match acc with
-      | .ok (some c) =>
-        (match runPass (font.passes.getD (lo + k) default) c fuel with
-         | .ok (some c) => if c.seg.numGlyphs > 0 ∧ c.seg.numGlyphs > limit then .ok none else .ok (some c)
-         | o => o)
-      | o => o) (.ok (some c))
-  match runRange ctx0 0 font.ipos with
+  match runRange font.passes ctx0 0 font.ipos fuel with
   | .error w => .error w
   | .ok none => .ok none
   | .ok (some c) =>
@@ -301,9 +314,9 @@ def shape (font : Font) (text : List Nat) (fuel : Nat) : Except String (Option (
     if r.2.2 then .error "associateChars: char-info access out of range" else
     let seg' := (stream.zip r.1).foldl (fun s (i, ba) => s.upd i fun sl => (sl.setBefore ba.1).setAfter ba.2) c.seg
     let seg' := stream.zipIdx.foldl (fun s (i, k) => s.upd i fun sl => { sl with index := k }) seg'
-    match runRange (c.withSeg seg') font.ipos font.passes.size with
+    match runRange font.passes (c.withSeg seg') font.ipos font.passes.size fuel with
     | .error w => .error w
     | .ok none => .ok none
-    | .ok (some c) => .ok (some (c.seg, r.2.1))
+    | .ok (some c) => .ok (some (c, r.2.1))
 
 end GrVerif.Pass
